@@ -29,14 +29,14 @@ impl EntityLoader for LoggingLoader<'_> {
             out.insert(u.clone(), self.ents.get(u).cloned());
         }
         if self.generous {
-            // also the ancestors of what was asked for (unless handed out before: the evaluator
-            // treats a second copy of an entity as an error, and whether a loader may repeat
-            // itself is not fixed by the loader contract), and one unrelated entity not returned before
+            // also the ancestors of what was asked for (every time, as a loader that fetches
+            // "entity + its ancestor chain" would), and one unrelated entity not returned before
             for u in uids {
                 for a in self.ents.ancestors(u).into_iter().flatten() {
-                    if !self.returned.contains(&a.to_string()) {
-                        out.entry(a.clone()).or_insert_with(|| self.ents.get(a).cloned());
-                    }
+                    // a shared ancestor is handed out again by a later call: "loading more
+                    // entities than requested is allowed" (finding F5: this used to fail with
+                    // "duplicate entity entry")
+                    out.entry(a.clone()).or_insert_with(|| self.ents.get(a).cloned());
                 }
             }
             let mut all: Vec<&Entity> = self.ents.iter().collect();
